@@ -289,6 +289,41 @@ theorem C01_withdraw_succeeds (h h1 : HubSt) (e : HubEnv) (sender : Addr)
   rw [if_neg (by omega), if_neg (by omega)]
   exact ⟨_, _, rfl⟩
 
+/-- **Absent slashing and unsolicited transfers the total released falls short of the arrivals by
+    rounding dust only.** If exactly the coins undelegated for the group arrived (no slashing of the
+    unbonding stake, no unsolicited transfer; all amounts within the envelope 10^18), the sum of all
+    users' released claims grows by everything that arrived, less at most two base units per batch
+    and two per claim (wait entry) of the released batches. -/
+theorem C01_release_dust_bound (h h1 : HubSt) (cutoff bal : Nat) (inv : ClaimInv h)
+    (hexact : bal - h.prevHubBalance =
+      sideTotal (h.pairsS (h.relIds cutoff)) + sideTotal (h.pairsB (h.relIds cutoff)))
+    (hle : bal - h.prevHubBalance ≤ D)
+    (hamt : ∀ i x, h.hist i = some x → x.bAmt ≤ D ∧ x.sAmt ≤ D)
+    (hx : h.processWithdrawRate cutoff bal = .ok h1) :
+    h.owed + (bal - h.prevHubBalance) ≤
+      h1.owed + 2 * (h.relIds cutoff).length + ((h.relIds cutoff).map (fun i => 2 * (h.keysOf i).length)).sum :=
+  release_owed_ge h h1 cutoff bal hx (fun i x hxi hr => (inv.closed i x hxi).1 hr) hexact hle hamt
+
+/-- …and such a release meets the side condition of the upper bound: both token sides receive
+    exactly what was undelegated for them. -/
+theorem C01_exact_arrival_is_safe (h : HubSt) (cutoff bal : Nat)
+    (hexact : bal - h.prevHubBalance =
+      sideTotal (h.pairsS (h.relIds cutoff)) + sideTotal (h.pairsB (h.relIds cutoff)))
+    (hle : bal - h.prevHubBalance ≤ D) : h.GroupSafe cutoff bal := by
+  unfold GroupSafe
+  rw [hexact] at hle ⊢
+  generalize sideTotal (h.pairsS (h.relIds cutoff)) = sT at *
+  generalize sideTotal (h.pairsB (h.relIds cutoff)) = bT at *
+  by_cases hpos : 0 < sT + bT
+  · have hsplit := split_exact sT bT hpos hle
+    simp only [hpos, gt_iff_lt, if_true]
+    rw [hsplit]
+    exact ⟨Or.inl (Nat.le_refl _), Or.inl (by omega)⟩
+  · have hs : sT = 0 := by omega
+    have hb : bT = 0 := by omega
+    subst hs; subst hb
+    exact ⟨Or.inl (Nat.zero_le _), Or.inl (Nat.zero_le _)⟩
+
 /-! #### every other hub message leaves `prev_hub_balance` and the released claims alone -/
 
 private theorem prev_of_books {h st : HubSt} {e : HubEnv} (hx : h.actualState e = .ok st) :
